@@ -100,6 +100,10 @@ def base_configs(tier: str) -> List[dict]:
     op2 = _sweep("VTwo", {"factor": "t"}, {"t": {"values": [3.0, 4.0, 5.0]}}, mode="by_position")
     op2["parameters"] = {"addend": 0.5}
     out.append(cfg([n("VSrc", {"value": 2.0}), OP_SWEEP, n("VSum"), op2, n("VSum"), _sweep("VMulDef", {"factor": "2.0 * t"}, {"t": [1.0, 2.0]}), n("VSum")]))
+    # beyond the small scope: an expression of 30 terms (700 characters) and a 12-term product
+    long_sum = " + ".join(f"{1.0 + i} * t * u" if i % 3 else f"abs(t - {float(i)})" for i in range(30))
+    long_prod = " * ".join(["t", "u", "2.0", "(t + 1.0)", "(u + 2.0)", "abs(t)", "max(t, u)", "3.0", "(t - u)", "t", "u", "1.5"])
+    out.append(cfg([_sweep("VSrc2", {"value": long_sum, "offset": long_prod}, {"t": {"values": [1.0, 2.0]}, "u": {"lo": 0.5, "hi": 1.5, "steps": 2}}), n("VSum")]))
     noexpr = _sweep("VMulDef", {}, {"t": {"values": [1.0, 2.0, 3.0]}}, mode="by_position")
     noexpr_probe = _sweep("VGainProbe", {}, {"t": {"lo": 1.0, "hi": 2.0, "steps": 2}, "u": {"values": [1.0]}}, collection=None, broadcast=True, mode="by_position")
     noexpr_probe["context_key"] = "res"
